@@ -1,18 +1,17 @@
 package main
 
-// A few statically declared (named) types, as a plugin author would write them: named string types,
-// embedded structs, []byte secrets, time fields. They go through the same abstraction.
+// Statically declared (named) types, as a plugin author would write them - what reflect.StructOf cannot build:
+// named string types, embedded structs of exported and UNEXPORTED types (whose exported fields are promoted and
+// serialised), embedded *struct, ordinary unexported fields, []byte secrets, **T, *[]T, *map, *any, time elements.
+// They carry canaries and go through the same abstraction and the same comparison as the generated types.
 
 import (
 	"encoding/json"
 	"fmt"
-	"reflect"
-	"runtime/debug"
+	"strings"
 	"time"
 
 	"verifharness/core"
-
-	"github.com/element-of-surprise/coercion/workflow/utils/clone"
 )
 
 type Token string
@@ -48,66 +47,165 @@ type StaticReq struct {
 	PSlice    *[]Creds
 	PMap      *map[string]Creds
 	PAny      *any
-	Limit     int `coerce:"secure"`
+	Limit     int64     `coerce:"secure"`
 	Expires   time.Time `coerce:"secure"`
 }
 
+// base and more are UNEXPORTED types: embedded, their exported fields are promoted.
+type base struct {
+	Password string `coerce:"secure"`
+	Region   string
+	When     time.Time
+	note     string // ordinary unexported field: out of scope of the scrubber, must survive copies
+}
+
+type more struct {
+	APIKey string `coerce:"secure"`
+	Zone   string
+}
+
+type EmbReq struct {
+	base
+	*more
+	Name string
+}
+
+type EmbHolder struct {
+	ByPtr  *EmbReq
+	ByAny  any // EmbReq by value
+	AnyPtr any // *EmbReq
+	Slice  []EmbReq
+	Map    map[string]EmbReq
+	PtrMap map[string]*EmbReq
+	NoMore EmbReq // embedded *more is nil
+	Title  string
+}
+
+// planter hands out canaries with the harness's own labels.
+type planter struct {
+	cans      []*Canary
+	n         int
+	secFields int
+}
+
+func (p *planter) add(kind string, secret, noJSON bool, path string) *Canary {
+	p.n++
+	c := &Canary{Kind: kind, Secret: secret, NoJSON: noJSON, Path: path, Depth: 4, Pair: "static"}
+	switch kind {
+	case "s":
+		c.Str = fmt.Sprintf("cnry9%04dq", p.n)
+	case "n":
+		c.Num = 7700900077 + int64(p.n)*100
+	default:
+		c.Num = timeBase.Unix() + 900000 + int64(p.n)
+	}
+	if secret {
+		p.secFields++
+	}
+	p.cans = append(p.cans, c)
+	return c
+}
+// drop forgets the canaries planted under the given path prefixes (the value holding them is not used).
+func (p *planter) drop(prefixes ...string) {
+	var keep []*Canary
+	for _, c := range p.cans {
+		dropped := false
+		for _, pre := range prefixes {
+			if strings.HasPrefix(c.Path, pre) {
+				dropped = true
+			}
+		}
+		if dropped {
+			if c.Secret {
+				p.secFields--
+			}
+			continue
+		}
+		keep = append(keep, c)
+	}
+	p.cans = keep
+}
+func (p *planter) plain(path string) string  { return p.add("s", false, false, path).Str }
+func (p *planter) secret(path string) string { return p.add("s", true, false, path).Str }
+func (p *planter) hiddenField(path string) string {
+	return p.add("s", false, true, path).Str
+}
+func (p *planter) tm(secret bool, path string) time.Time {
+	return time.Unix(p.add("t", secret, false, path).Num, 0).UTC()
+}
+
+func (p *planter) creds(path string) Creds {
+	return Creds{User: p.plain(path + ".User"), Password: p.secret(path + ".Password"), Key: []byte(p.secret(path + ".Key"))}
+}
+
+func (p *planter) embReq(path string, withMore bool) EmbReq {
+	r := EmbReq{
+		base: base{Password: p.secret(path + ".base.Password"), Region: p.plain(path + ".base.Region"), When: p.tm(false, path+".base.When"),
+			note: p.hiddenField(path + ".base.note")},
+		Name: p.plain(path + ".Name"),
+	}
+	if withMore {
+		r.more = &more{APIKey: p.secret(path + ".more.APIKey"), Zone: p.plain(path + ".more.Zone")}
+	}
+	return r
+}
+
 func staticCases(w *core.Writer, r *core.Rand) {
-	mk := func(i int) *StaticReq {
-		s := func(k string) string { return fmt.Sprintf("cnry9%d%sq", i, k) }
-		tm := func(k int) time.Time { return timeBase.Add(time.Duration(900000+i*100+k) * time.Second) }
-		cr := func(k string) Creds { return Creds{User: s("u" + k), Password: s("p" + k), Key: []byte(s("k" + k))} }
-		c1 := cr("a")
+	// ---- named types, exported embedded struct, pointers to non-struct values, time elements
+	for i := 0; i < 2; i++ {
+		p := &planter{}
+		c1 := p.creds("PP**")
 		pc := &c1
-		sl := []Creds{cr("b"), cr("c")}
-		mp := map[string]Creds{"x": cr("d")}
-		var an any = cr("e")
-		t1 := tm(1)
+		sl := []Creds{p.creds("PSlice*[0]"), p.creds("PSlice*[1]")}
+		mp := map[string]Creds{"x": p.creds("PMap*[x]")}
+		var an any = p.creds("PAny*.(dyn)")
+		t1 := p.tm(false, "TimePtrs[0]*")
 		req := &StaticReq{
-			Base: Base{Region: s("r"), Token: Token(s("t"))}, Name: s("n"),
-			Endpoints: []Endpoint{{URL: s("url"), Creds: cr("f"), When: tm(2)}},
-			ByName:    map[string]*Endpoint{"m": {URL: s("url2"), Creds: cr("g"), When: tm(3)}},
-			Extra:     map[string]any{"a": cr("h"), "b": &Endpoint{Creds: cr("i")}, "c": []any{cr("j"), s("plain")}, "d": tm(4)},
-			Any:       []any{map[string]any{"z": cr("k")}},
-			Times:     []time.Time{tm(5), tm(6)}, TimeMap: map[string]time.Time{"t": tm(7)}, TimePtrs: []*time.Time{&t1},
-			PP: &pc, PSlice: &sl, PMap: &mp, PAny: &an, Limit: 7700099077 + i, Expires: tm(8),
+			Base: Base{Region: p.plain("Base.Region"), Token: Token(p.secret("Base.Token"))}, Name: p.plain("Name"),
+			Endpoints: []Endpoint{{URL: p.plain("Endpoints[0].URL"), Creds: p.creds("Endpoints[0].Creds"), When: p.tm(false, "Endpoints[0].When")}},
+			ByName:    map[string]*Endpoint{"m": {URL: p.plain("ByName[m].URL"), Creds: p.creds("ByName[m].Creds"), When: p.tm(false, "ByName[m].When")}},
+			Extra: map[string]any{"a": p.creds("Extra[a]"), "b": &Endpoint{Creds: p.creds("Extra[b]*.Creds")},
+				"c": []any{p.creds("Extra[c][0]"), p.plain("Extra[c][1]")}, "d": p.tm(false, "Extra[d]")},
+			Any:   []any{map[string]any{"z": p.creds("Any[0][z]")}},
+			Times: []time.Time{p.tm(false, "Times[0]"), p.tm(false, "Times[1]")}, TimeMap: map[string]time.Time{"t": p.tm(false, "TimeMap[t]")},
+			TimePtrs: []*time.Time{&t1},
+			PP:       &pc, PSlice: &sl, PMap: &mp, PAny: &an,
+			Limit: p.add("n", true, false, "Limit").Num, Expires: p.tm(true, "Expires"),
 		}
 		if i == 1 {
-			req.Any = cr("l")
+			req.Any = p.creds("Any.(dyn)")
 			req.PP, req.PSlice, req.PMap, req.PAny = nil, nil, nil, nil
+			p.drop("PP", "PSlice", "PMap", "PAny*", "Any[0]")
 		}
-		return req
+		runSecure(w, fmt.Sprintf("static-%d", i), "secure-static",
+			"*StaticReq (named types, exported embedded struct, []byte, **T, *[]T, *map, *any, time elements)", "ptr", req, p.cans, p.secFields)
 	}
-	for i := 0; i < 2; i++ {
-		tab := NewTable()
-		x := mk(i)
-		before := Abstract(tab, reflect.ValueOf(x))
-		ob := secureObs{Type: "StaticReq (named types, embedded struct, []byte, **T, *[]T, *map, *any, time elements)"}
-		var err error
-		func() {
-			defer func() {
-				if rec := recover(); rec != nil {
-					ob.Panic = fmt.Sprintf("%v\n%s", rec, debug.Stack())
-				}
-			}()
-			err = clone.Secure(x)
-		}()
-		o := "ObsPanic"
-		switch {
-		case ob.Panic != "":
-			ob.Result = "panic"
-		case err != nil:
-			ob.Result, o = "err", "ObsErr"
-		default:
-			ob.Result = "ok"
-			o = core.App("ObsOk", Abstract(tab, reflect.ValueOf(x)))
-			ob.After = jsonOf(x)
+	// ---- embedded struct / *struct of unexported types: by pointer, by value in an `any`, in a slice, as a map value
+	for i := 0; i < 3; i++ {
+		p := &planter{}
+		byPtr := p.embReq("ByPtr*", true)
+		anyPtr := p.embReq("AnyPtr.(dyn)*", i != 2)
+		ptrMap := p.embReq("PtrMap[k]*", true)
+		h := &EmbHolder{
+			ByPtr: &byPtr, ByAny: p.embReq("ByAny.(dyn)", true), AnyPtr: &anyPtr,
+			Slice:  []EmbReq{p.embReq("Slice[0]", true), p.embReq("Slice[1]", i == 0)},
+			Map:    map[string]EmbReq{"k": p.embReq("Map[k]", true)},
+			PtrMap: map[string]*EmbReq{"k": &ptrMap},
+			NoMore: p.embReq("NoMore", false), Title: p.plain("Title"),
 		}
-		w.Put(core.Case{ID: fmt.Sprintf("static-%d", i), Kind: "secure-static", Coq: fmt.Sprintf("(CSecure %s %s)", before, o),
-			Nontrivial: true, Hash: core.Hash(before, o),
-			Dist:     map[string]any{"depth": 5, "secure_leaves": 40, "pairs": []string{"static"}, "result": ob.Result, "root": "ptr"},
-			Input:    map[string]any{"type": ob.Type, "variant": i},
-			Observed: ob})
+		var x any = h
+		name := "*EmbHolder (embedded unexported struct and *struct: by pointer, by value in any, in a slice, as map value)"
+		switch i {
+		case 1: // the request itself, by pointer
+			x, name = &byPtr, "*EmbReq (embedded unexported struct and *struct)"
+			p2 := &planter{}
+			r2 := p2.embReq("v*", true)
+			x, p = &r2, p2
+		case 2:
+			h.ByPtr, h.PtrMap = nil, nil
+			p.drop("ByPtr", "PtrMap")
+		}
+		runSecure(w, fmt.Sprintf("static-emb-%d", i), "secure-static", name, "ptr", x, p.cans, p.secFields)
 	}
 }
 
